@@ -308,6 +308,97 @@ def term_part(prop, tier, seed):
         shutil.rmtree(wd, ignore_errors=True)
 
 
+CORE_CFGS = {   # property -> (quick configs, thorough configs) of MPBCore.tla
+    "C01": (["q0", "rm", "sync2q0"], ["q0", "rm", "drop", "queue", "pop", "write", "sync2", "mixed2", "shut", "sync2q0", "three"]),
+    "C02": (["q0", "sync2q0"], ["q0", "shut", "two", "sync2q0", "sync2q1"]),
+    "C03": (["write", "rm"], ["write", "rm", "drop", "two"]),
+    "C05": (["rm", "queue"], ["rm", "drop", "queue", "pop", "mixed2", "sync2q0"]),
+    "C12": (["drop", "mixed2"], ["sync2", "mixed2", "drop", "three", "pop3"]),
+    "C13": (["write"], ["write", "two"]),
+    "C14": (["q0"], ["shut"]),
+    "C16": (["q0", "rm"], ["q0", "rm", "drop", "queue", "pop", "write", "shut", "sync2"]),
+    "C17": (["queue"], ["queue"]),
+    "C18": (["pop"], ["pop", "pop3"]),
+}
+
+
+def core_part(prop, tier, seed):
+    """MPBCore.tla: exhaustive TLC on small configurations; its behaviours replayed as gate schedules on the
+    real library; gate traces of the real library validated against it.  Verdicts come from Obs.tla on the
+    real executions; a counterexample that does not reproduce is a defect of the model (exit 2)."""
+    from . import corebind as cb
+    t0 = time.time()
+    wd = core.workdir(prop + "c")
+    try:
+        binary = core.build_harness(wd)
+        cfgs = CORE_CFGS[prop][0 if tier == "quick" else 1]
+        nsim, nrand = (40, 20) if tier == "quick" else (400, 150)
+        states = trans = 0
+        model, scs, expect = [], [], {}
+        for name in cfgs:
+            r = cb.check_config(wd, name, workers=core.NCPU)
+            states += r["states"]
+            trans += r["transitions"]
+            model.append({k: r[k] for k in ("config", "states", "transitions", "violated")})
+            if r["violated"]:
+                sid = "core-cex-%s" % name
+                scs.append(cb.scenario(name, sid, [cb.to_harness(l) for l in r["schedule"]]))
+                expect[sid] = r["violated"]
+            sched, _ = cb.simulate(wd, name, nsim, 400, seed)
+            for i, (outcome, labs) in enumerate(sched):
+                scs.append(cb.scenario(name, "core-sim-%s-%d" % (name, i), [cb.to_harness(l) for l in labs]))
+            for i in range(nrand):
+                scs.append(cb.scenario(name, "core-rnd-%s-%d-%d" % (name, seed, i), mode="random", seed=seed * 1000 + i))
+        traces = core.run_scenarios(binary, wd, scs, chunk=20)
+        scen = {x["id"]: x for x in scs}
+        bad, st, tr, nev = core.run_obs(traces, wd)
+        states += st
+        trans += tr
+        lines, nviol, known = judge(prop, bad, scen, wd)
+        # a model counterexample must reproduce on the code, else the model is wrong
+        badtr = {b["tr"] for b in bad}
+        for sid, inv in expect.items():
+            div = [e for e in traces.get(sid, []) if e["ev"] == "diverge"]
+            if sid not in badtr:
+                raise core.Infra("MPBCore counterexample (%s, invariant %s) does not reproduce on the code%s: the model is wrong" % (
+                    sid, inv, " (diverged at step %d)" % div[0]["at"] if div else ""))
+        diverged = [tid for tid, evs in traces.items() if any(e["ev"] == "diverge" for e in evs)]
+        # code -> spec: every recorded gate trace must be a behaviour of the specification
+        acc_n = rej_n = steps = 0
+        rejected = []
+        for name in cfgs:
+            sub = {tid: evs for tid, evs in traces.items() if scen[tid]["family"] == "core:" + name}
+            acc, rej, st2, tr2, n = cb.validate_traces(wd, name, sub)
+            acc_n += len(acc)
+            rej_n += len(rej)
+            rejected += rej
+            steps += n
+            states += st2
+            trans += tr2
+        hashes = {trace_hash(evs) for evs in traces.values()}
+        cov = {"states": states, "transitions": trans, "traces_validated_against_impl": acc_n + rej_n,
+               "samples": [{"config": m["config"], "states": m["states"]} for m in model][:3] + [{"schedule": scs[0]["sched"]["steps"][:40]}],
+               "evaluations": len(traces), "distinct_nontrivial": len(hashes),
+               "rule": "MPBCore.tla configurations %s: exhaustive TLC; %d simulated behaviours per configuration replayed gate by gate on the real "
+                       "library, %d seeded random-scheduler runs; every gate trace validated against the specification (released gate + multiset "
+                       "of parked gates after each step); distinct = distinct gate/call/frame sequences" % (",".join(cfgs), nsim, nrand),
+               "exhaustive": True, "model": model, "replays": len(scs), "replay_divergences": len(diverged),
+               "gate_traces_accepted": acc_n, "gate_traces_rejected": rej_n, "gate_steps": steps, "drift_traces": rejected[:10],
+               "known_findings": {k: len({b["tr"] for b in v}) for k, v in known.items()},
+               "checker_cmd": "tlc MPBCore.tla (MCgen_<cfg>) ; tlc -simulate MPBSim.tla ; harness.test TestWorker (replay) ; tlc MPBTrace.tla ; tlc Obs.tla"}
+        lines.append("%s %s core: %d configs, %d model states, %d replays (%d diverged), gate traces %d accepted / %d rejected, %d violations, %.1fs" % (
+            prop, tier, len(cfgs), sum(m["states"] for m in model), len(scs), len(diverged), acc_n, rej_n, nviol, time.time() - t0))
+        if rej_n or diverged:
+            lines.append("note: model drift (rejected gate traces / replay divergences) is recorded in the evidence; it is not a verdict on the code")
+        return {"cov": cov, "lines": lines, "nviol": nviol,
+                "assume": ["the gates cover every racing channel operation (hooks in /repo, tag verif); what runs between two gates is sequential",
+                           "a drifted model weakens the model-directed exploration, never the verdict: verdicts come from Obs.tla on real executions"]}
+    finally:
+        shutil.rmtree(wd, ignore_errors=True)
+
+
+for _p in CORE_CFGS:
+    PARTS[_p] = PARTS.get(_p, []) + [core_part]
 PARTS["C04"] = [term_part, sched_part]
 PARTS["C18"] = [sched_part, term_part]
 PARTS["C07"] = [fill_part]
